@@ -633,6 +633,11 @@ where
 
     #[inline]
     pub(crate) fn spawn(mut self) -> JoinHandle<Result<(), CacheError>> {
+        #[cfg(transparencies_stretto_verif)]
+        if crate::verif::parked() {
+            crate::verif::park(self);
+            return spawn(|| Ok(()));
+        }
         let ticker = tick(self.cleanup_duration);
         spawn(move || loop {
             select! {
@@ -686,6 +691,121 @@ where
                     });
                 })
             })
+    }
+}
+
+/// Which arm of the worker loop's `select!` to take.
+#[cfg(transparencies_stretto_verif)]
+#[derive(Copy, Clone, Debug, Eq, PartialEq)]
+pub enum VBranch {
+    /// `recv(insert_buf_rx)`
+    Insert,
+    /// `recv(clear_rx)`
+    Clear,
+    /// `recv(ticker)`
+    Tick,
+    /// `recv(stop_rx)`, waiting at most this many milliseconds for the message
+    Stop(u64),
+}
+
+/// What an item taken from the insert buffer was.
+#[cfg(transparencies_stretto_verif)]
+#[derive(Clone, Debug, Eq, PartialEq)]
+pub enum ItemDesc {
+    /// `Item::New`: key, conflict, cost, value id, ttl ns, created ns
+    New(u64, u64, i64, u64, u128, u128),
+    /// `Item::Update`: key, cost, external cost
+    Update(u64, i64, i64),
+    /// `Item::Delete`: key, conflict
+    Delete(u64, u64),
+    /// `Item::Wait`
+    Wait,
+}
+
+/// Outcome of one stepped iteration of the worker loop.
+#[cfg(transparencies_stretto_verif)]
+#[derive(Clone, Debug, Eq, PartialEq)]
+pub enum ProcessorStep {
+    /// the branch's channel had no message
+    NotReady,
+    /// handled this item; `bool` = handler returned Ok
+    Insert(ItemDesc, bool),
+    /// handled a clear request
+    Clear(bool),
+    /// ran the cleanup
+    Tick(bool),
+    /// took the stop branch: the worker has returned
+    Stopped,
+    /// the worker had already returned
+    Exited,
+}
+
+#[cfg(transparencies_stretto_verif)]
+impl<V> Item<V> {
+    fn verif_desc<F: Fn(&V) -> u64>(&self, val_id: &F) -> ItemDesc {
+        match self {
+            Item::New {
+                key,
+                conflict,
+                cost,
+                value,
+                expiration,
+            } => {
+                let (d, c) = expiration.verif_parts();
+                ItemDesc::New(*key, *conflict, *cost, val_id(value), d, c)
+            }
+            Item::Update {
+                key,
+                cost,
+                external_cost,
+            } => ItemDesc::Update(*key, *cost, *external_cost),
+            Item::Delete { key, conflict } => ItemDesc::Delete(*key, *conflict),
+            Item::Wait(_) => ItemDesc::Wait,
+        }
+    }
+}
+
+#[cfg(transparencies_stretto_verif)]
+impl<V, U, CB, S> CacheProcessor<V, U, CB, S>
+where
+    V: Send + Sync + 'static,
+    U: UpdateValidator<Value = V>,
+    CB: CacheCallback<Value = V>,
+    S: BuildHasher + Clone + 'static + Send + Sync,
+{
+    /// One iteration of the loop in `spawn`, taking the given arm. Mirrors the arms there.
+    pub(crate) fn verif_step<F: Fn(&V) -> u64>(&mut self, b: VBranch, val_id: F) -> ProcessorStep {
+        match b {
+            VBranch::Insert => match self.insert_buf_rx.try_recv() {
+                Ok(item) => {
+                    let d = item.verif_desc(&val_id);
+                    let r = self.handle_insert_event(Ok(item));
+                    ProcessorStep::Insert(d, r.is_ok())
+                }
+                Err(_) => ProcessorStep::NotReady,
+            },
+            VBranch::Clear => match self.clear_rx.try_recv() {
+                Ok(_) => {
+                    let r = self.handle_clear_event();
+                    ProcessorStep::Clear(r.is_ok())
+                }
+                Err(_) => ProcessorStep::NotReady,
+            },
+            VBranch::Tick => {
+                let r = self.handle_cleanup_event(Ok(Instant::now()));
+                ProcessorStep::Tick(r.is_ok())
+            }
+            VBranch::Stop(ms) => {
+                match self.stop_rx.recv_timeout(Duration::from_millis(ms)) {
+                    Ok(_) => ProcessorStep::Stopped,
+                    Err(_) => ProcessorStep::NotReady,
+                }
+            }
+        }
+    }
+
+    pub(crate) fn verif_pending(&self) -> (usize, usize) {
+        (self.insert_buf_rx.len(), self.clear_rx.len())
     }
 }
 
